@@ -95,6 +95,9 @@ type protoGen struct {
 	maxDepth int
 	deep     bool
 	bulky    bool
+	// edges: the program starts with containers whose encoded body lengths sit exactly on the boundaries of the
+	// binary length encodings (13/14, 127/128, 16383/16384), nested and annotated.
+	edges bool
 	// wide: the program first interns well over 128 distinct symbols (so that later symbol IDs need two VarUInt
 	// octets) and draws its symbols from that larger pool.
 	wide bool
@@ -235,6 +238,31 @@ func (g *protoGen) program() []drive.WOp {
 			ops = append(ops, drive.WOp{Op: "symstr", Str: fmt.Sprintf("w%d", k)})
 		}
 		ops = append(ops, drive.WOp{Op: "endlist"})
+		n += len(ops)
+	}
+	if g.edges {
+		// string header: 1 octet up to 13 bytes, 2 octets up to 127, 3 octets up to 16383
+		k0 := []int{0, 0, 2, 2, 2, 4, 6}[r.Intn(7)]
+		for _, body := range []int{13, 14, 127, 128, 129, 16383, 16384, 16385}[k0 : k0+2] {
+			n := body - 1
+			if body > 14 {
+				n = body - 2
+			}
+			if body > 129 {
+				n = body - 3
+			}
+			b := make([]byte, n)
+			for i := range b {
+				b[i] = byte('a' + i%26)
+			}
+			kind := []string{"list", "sexp"}[r.Intn(2)]
+			if r.Bool() {
+				ops = append(ops, drive.WOp{Op: "annot", Sym: &model.Sym{Text: "a", HasText: true}})
+			}
+			ops = append(ops, drive.WOp{Op: "begin" + kind}, drive.WOp{Op: "begin" + kind},
+				drive.WOp{Op: "string", V: model.NewString(string(b))}, drive.WOp{Op: "end" + kind},
+				drive.WOp{Op: "int", V: model.NewInt(int64(body))}, drive.WOp{Op: "end" + kind})
+		}
 		n += len(ops)
 	}
 	miss := func() bool { return g.misuse > 0 && r.Intn(1000) < g.misuse }
@@ -382,6 +410,8 @@ func newProtoGen(r *prng.Rand) *protoGen {
 		g.misuse = []int{0, 0, 20}[r.Intn(3)]
 	case 1, 2:
 		g.bulky = true
+	case 4:
+		g.edges = true
 	case 3:
 		g.wide = true
 		g.enabled["annot"], g.enabled["container"], g.enabled["symbol"] = true, true, true
